@@ -187,6 +187,28 @@ def call_reaching(name, within=None):
     return Sel(f, "call reaching " + name)
 
 
+def call_or_thin_helper(*names, max_nodes=120):
+    """call sites of one of `names`, or of a *thin private helper* of it: a non-public local function of at most max_nodes MIR
+    nodes that itself calls the name directly (a forwarder / small wrapper extracted during a refactor). The rule keeps talking
+    about "the place where X happens" when X was moved behind such a helper."""
+    def f(body):
+        out = []
+        prog = body.prog
+        for n in body.calls():
+            if any(call_matches(n.ev, nm) for nm in names):
+                out.append(n.id)
+                continue
+            for t in prog.targets(n.ev):
+                tb = prog.bodies.get(t) if t else None
+                if tb is None or tb.is_test or (tb.raw.get("vis") or "Public") == "Public" or len(tb.nodes) > max_nodes:
+                    continue
+                if any(call_matches(c.ev, nm) for c in tb.calls() for nm in names):
+                    out.append(n.id)
+                    break
+        return out
+    return Sel(f, "call " + "|".join(names) + " (or a thin private helper of it)")
+
+
 ATOMIC_WRITES = ["Atomic*::store", "Atomic*::fetch_*", "Atomic*::swap", "Atomic*::compare_exchange*",
                  "Atomic::store", "Atomic::fetch_*", "Atomic::swap", "Atomic::compare_exchange*"]
 ATOMIC_LOADS = ["Atomic*::load", "Atomic::load"]
@@ -464,7 +486,7 @@ def noerr_after(ctx, inst, body, s_nodes, what, allowed=()):
             if e in r:
                 srcs = [x for x in A.error_sources(body, e)
                         if not any(path_matches(x[1], w) for w in ("Result::map_err", "Option::ok_or", "Option::ok_or_else", "Result::map"))]
-                if srcs and all(any(path_matches(nm, al) for al in allowed) for (_, nm) in srcs):
+                if srcs and all(any(path_matches(nm, al) for al in allowed) or _helper_only_fails_through(body.prog, nm, allowed) for (_, nm) in srcs):
                     continue
                 bad.append(e)
         good = not bad
@@ -474,6 +496,23 @@ def noerr_after(ctx, inst, body, s_nodes, what, allowed=()):
                                      "witness": witness(body, ps, r.get(bad[0]))})
         ok_all &= good
     return ok_all
+
+
+def _helper_only_fails_through(prog, callee, allowed):
+    """`callee` is a non-public local helper every error exit of which comes from a callee in `allowed` (the tail of a function
+    extracted into a private helper keeps the exemption its fallible step had)"""
+    hb = prog.bodies.get(callee)
+    if hb is None or hb.is_test or (hb.raw.get("vis") or "Public") == "Public":
+        return False
+    errs = A.error_nodes(hb)
+    if not errs:
+        return False
+    for e in errs:
+        srcs = [x for x in A.error_sources(hb, e)
+                if not any(path_matches(x[1], w) for w in ("Result::map_err", "Option::ok_or", "Option::ok_or_else", "Result::map"))]
+        if not srcs or not all(any(path_matches(nm, al) for al in allowed) for (_, nm) in srcs):
+            return False
+    return True
 
 
 # -------------------------------------------------------------------- call-graph rules
